@@ -131,6 +131,22 @@ func (s *symb) expr0(v ssa.Value) *Sym {
 		return &Sym{Op: "bin:" + op.String(), Args: []*Sym{a, b}, Val: v}
 	case *ssa.UnOp:
 		if x.Op == token.MUL {
+			// load of a cell that holds a spilled (captured) parameter: the parameter itself
+			if al, ok := x.X.(*ssa.Alloc); ok {
+				var spilled ssa.Value
+				nStores := 0
+				for _, ref := range *al.Referrers() {
+					if st, ok := ref.(*ssa.Store); ok && st.Addr == ssa.Value(al) {
+						nStores++
+						spilled = st.Val
+					}
+				}
+				if p, ok := spilled.(*ssa.Parameter); ok && nStores == 1 {
+					if _, isStruct := p.Type().Underlying().(*types.Struct); !isStruct {
+						return s.expr(p)
+					}
+				}
+			}
 			return &Sym{Op: "load", Args: []*Sym{s.expr(x.X)}, Val: v}
 		}
 		return &Sym{Op: "un:" + x.Op.String(), Args: []*Sym{s.expr(x.X)}, Val: v}
@@ -172,6 +188,22 @@ func (s *symb) expr0(v ssa.Value) *Sym {
 		}
 		return &Sym{Op: "slice", Args: args, Val: v}
 	case *ssa.Alloc:
+		// a by-value parameter spilled to a local (`*t0 = a` as the only whole store): treat as the parameter
+		var spilled ssa.Value
+		nStores := 0
+		for _, ref := range *x.Referrers() {
+			if st, ok := ref.(*ssa.Store); ok && st.Addr == ssa.Value(x) {
+				nStores++
+				spilled = st.Val
+			}
+		}
+		if nStores == 1 {
+			if p, ok := spilled.(*ssa.Parameter); ok {
+				if _, isStruct := p.Type().Underlying().(*types.Struct); isStruct {
+					return s.expr(p)
+				}
+			}
+		}
 		return leaf("alloc", "alloc:"+x.Comment, v)
 	case *ssa.Phi:
 		// loop-carried phi: some edge depends on the phi itself
